@@ -45,7 +45,9 @@ class Consent:
         sys.setrecursionlimit(max(sys.getrecursionlimit(), 20000))      # the questions nest as deep as the call chains
         self.true = {}
         self.open = {}
-        self.fresh = False
+        self.fresh = []
+        self.deps = {}
+        self._deps_stack = []
         self.rounds = 0
         self._stores_by_field = None
         self._calls_by_field = None
@@ -55,28 +57,41 @@ class Consent:
     # Chaotic iteration from below: a question is `no' until an evaluation that only looks at established answers
     # says `yes'.  Asking registers the question; solve() re-evaluates the open ones until nothing changes.
     def _ask(self, key, compute):
+        if self._deps_stack:
+            self._deps_stack[-1].add(key)
         if key in self.true:
             return (True, self.true[key])
         if key not in self.open:
             self.open[key] = compute
-            self.fresh = True
+            self.fresh.append(key)
         return (False, "not established")
 
+    def _eval(self, key):
+        self._deps_stack.append(set())
+        r = self.open[key]()
+        self.deps[key] = self._deps_stack.pop()
+        return r
+
     def solve(self):
+        """re-evaluate an open question only when one of the answers it read has changed (or it is new)"""
         rounds = 0
-        while True:
+        todo = list(self.open)
+        self.fresh = []
+        while todo:
             rounds += 1
-            self.fresh = False
-            changed = False
-            for key in list(self.open):
-                r = self.open[key]()
+            became = set()
+            for key in todo:
+                if key not in self.open:
+                    continue
+                r = self._eval(key)
                 if r[0]:
                     self.true[key] = r[1]
                     del self.open[key]
-                    changed = True
-            if not changed and not self.fresh:
-                break
-        self.rounds = rounds
+                    became.add(key)
+            new = self.fresh
+            self.fresh = []
+            todo = list(dict.fromkeys(new + [k for k in self.open if self.deps.get(k, set()) & became]))
+        self.rounds += rounds
 
     def explain(self, key):
         """the answer's reason after solve(): why yes, or the first thing missing"""
